@@ -27,6 +27,7 @@ structure NodeOKO (E : Env α) (c : FCtx α) (root : List (Ival α)) (out : List
   hull : ∀ j < d.comb.length, HullOf (d.actual.getD j default) ((inRows out all).map fun r => c.value r (d.comb.getD j 0))
   stub : d.isStub = stubFlag E c subs
   counter : ∃ hist : List Nat, hist.Perm all ∧ d.counter = c.kind.newEntity.addMany (hist.map c.pidRow)
+  subsOK : SubsOK d.comb d.snapped subs
 
 structure BranchOKO (E : Env α) (c : FCtx α) (out : List Nat) (d : NodeData α) (subs : List (Option (Node α)))
     (ch : List (Nat × Node α)) (all : List Nat) : Prop where
@@ -60,7 +61,7 @@ theorem NodeOKO.congr {E : Env α} {c : FCtx α} {root : List (Ival α)} {out ou
     {subs : List (Option (Node α))} {all : List Nat} (h : NodeOKO E c root out d subs all)
     (he : ∀ r ∈ all, (r ∈ out' ↔ r ∈ out)) : NodeOKO E c root out' d subs all := by
   have e := inRows_congr he
-  exact ⟨h.lenS, h.lenA, by rw [e]; exact h.nonempty, by rw [e]; exact h.inside, by rw [e]; exact h.hull, h.stub, h.counter⟩
+  exact ⟨h.lenS, h.lenA, by rw [e]; exact h.nonempty, by rw [e]; exact h.inside, by rw [e]; exact h.hull, h.stub, h.counter, h.subsOK⟩
 
 /-- changing the outlier set outside the rows a tree holds changes nothing -/
 theorem TInvO.congr {E : Env α} {c : FCtx α} {root : List (Ival α)} {out out' : List Nat} {t : Node α}
@@ -87,12 +88,12 @@ theorem TInvO.ofTInv {E : Env α} {c : FCtx α} {root : List (Ival α)} {t : Nod
     subst hex
     simp only [List.nil_append] at hN
     exact TInvO.leaf _ _ _ ⟨hN.lenS, hN.lenA, by rw [inRows_nil]; exact hN.nonempty, by rw [inRows_nil]; exact hN.inside,
-      by rw [inRows_nil]; exact hN.hull, hN.stub, hN.counter⟩
+      by rw [inRows_nil]; exact hN.hull, hN.stub, hN.counter, hN.subsOK⟩
   | branch extra d subs ch hN hB hC ih =>
     subst hex
     simp only [List.nil_append] at hN hB
     refine TInvO.branch _ _ _ ⟨hN.lenS, hN.lenA, by rw [inRows_nil]; exact hN.nonempty, by rw [inRows_nil]; exact hN.inside,
-      by rw [inRows_nil]; exact hN.hull, hN.stub, hN.counter⟩ ⟨hB.keys, hB.child, ?_, hB.notStub, hB.notSing, hB.licence⟩ ?_
+      by rw [inRows_nil]; exact hN.hull, hN.stub, hN.counter, hN.subsOK⟩ ⟨hB.keys, hB.child, ?_, hB.notStub, hB.notSing, hB.licence⟩ ?_
     · intro p hp r hr
       rw [inRows_nil] at hr
       exact hB.route p hp r hr
@@ -116,7 +117,7 @@ theorem NodeOKO.fold {E : Env α} {c : FCtx α} {root : List (Ival α)} {out : L
     (hp : all'.Perm (all ++ [row])) (hr : row ∈ out) :
     NodeOKO E c root out { d with counter := d.counter.add (c.pidRow row) } subs all' := by
   have hm := mem_inRows_fold hp hr
-  refine ⟨h.lenS, h.lenA, ?_, ?_, ?_, h.stub, ?_⟩
+  refine ⟨h.lenS, h.lenA, ?_, ?_, ?_, h.stub, ?_, h.subsOK⟩
   · obtain ⟨x, hx⟩ := List.exists_mem_of_ne_nil _ h.nonempty
     exact List.ne_nil_of_mem ((hm x).mpr hx)
   · intro r hr'; exact h.inside r ((hm r).mp hr')
@@ -254,14 +255,6 @@ theorem children_two_keys (ch : List (Nat × Node α)) (hk : (ch.map (·.1)).Nod
     simp only [List.map_cons, List.nodup_cons, List.mem_cons, not_or] at hk
     simp only at h1 h3 h4
     omega
-
-theorem lookupChild_mem {ch : List (Nat × Node α)} {k : Nat} {n : Node α} (h : lookupChild ch k = some n) : (k, n) ∈ ch := by
-  simp only [lookupChild, Option.map_eq_some_iff] at h
-  obtain ⟨p, hp, rfl⟩ := h
-  have h1 := List.mem_of_find?_eq_some hp
-  have h2 := List.find?_some hp
-  have : p.1 = k := by simpa using h2
-  rw [← this]; exact h1
 
 /-- `_get_low_count_rows_in_child`: the rows returned are the child's rows -/
 theorem lowRows_some {E : Env α} {c : FCtx α} {ch : List (Nat × Node α)} {k : Nat} {rs : List Nat}
@@ -504,5 +497,14 @@ theorem TInvO.sub {E : Env α} {c : FCtx α} {root : List (Ival α)} {out : List
   | child d s ch p hp _ ih =>
     cases hT with
     | branch _ _ _ _ _ hC => exact ih (hC p hp)
+
+
+theorem TInvO.shape {E : Env α} {c : FCtx α} {root : List (Ival α)} {out : List Nat} {t : Node α} (h : TInvO E c root out t) :
+    Shape t := by
+  induction h with
+  | leaf d subs rows hN => exact Shape.leaf _ _ _ hN.lenS hN.subsOK.1 hN.subsOK.2
+  | branch d subs ch hN hB hC ih =>
+    exact Shape.branch _ _ _ hN.lenS hN.subsOK.1 hN.subsOK.2 hB.keys
+      (fun p hp => ⟨(hB.child p hp).1, (hB.child p hp).2.1, (hB.child p hp).2.2.2⟩) ih
 
 end
